@@ -156,8 +156,23 @@ func runC07(r *Rng, n int, replay string) {
 				opsC = append(opsC, o.coq())
 				items = append(items, cPair(a.coq(), snapCoqFS(snapA())))
 			}
+			layer := k.id
+			if k.id == "mount-above" {
+				// the one known defect of this layer: the view is built on the file system that owns dir, so whatever is
+				// mounted at a/b below it is invisible.  Only operations naming a/b or something below it are affected.
+				under := func(p string) bool { return p == "a/b" || strings.HasPrefix(p, "a/b/") }
+				above := func(p string) bool { return p == "a" || p == "." }
+				switch {
+				case under(po.P) || (po.Kind == "rename" && under(po.Q)):
+					layer = "mount-above:hidden"
+				case po.Kind == "readdir" && po.P == "a": // lists the entry "b": the covered directory vs the mounted root
+					layer = "mount-above:hidden"
+				case (po.Kind == "removeall" || po.Kind == "rename") && (above(po.P) || (po.Kind == "rename" && above(po.Q))):
+					layer = "mount-above:hidden" // walks or moves the directory that holds the mount point
+				}
+			}
 			fail := func(sig, f string, args ...interface{}) {
-				c.fail(fmt.Sprintf("[%s] Sub(%q) step %d: view %s -> %s, parent %s -> %s: ", k.id, dir, i, o, a, po, b)+fmt.Sprintf(f, args...), k.id+":"+sig)
+				c.fail(fmt.Sprintf("[%s] Sub(%q) step %d: view %s -> %s, parent %s -> %s: ", k.id, dir, i, o, a, po, b)+fmt.Sprintf(f, args...), layer+":"+sig)
 			}
 			if a.Kind == "panic" {
 				fail(o.Kind+":panic", "panicked")
